@@ -38,6 +38,8 @@ pub enum Handle<F: Family> {
     OffP(OffsetArc<F::P>),
     RawP(SendPtr<F::P>),
     UniP(UniqueArc<F::P>),
+    /// UniqueArc<P> unsized to a trait object (unsize feature)
+    UniDynP(UniqueArc<dyn Probe>),
     ErasedP(Arc<HeaderSlice<(), F::P>>),
     DynP(Arc<dyn Probe>),
     RawDyn(SendPtr<dyn Probe>),
@@ -112,15 +114,16 @@ pub enum Kind {
     Str,
     HStr,
     ValP,
+    UniDynP,
 }
-pub const NKINDS: usize = 32;
+pub const NKINDS: usize = 33;
 pub const KIND_NAMES: [&str; NKINDS] = [
     "Arc<P>", "OffsetArc<P>", "*const P", "UniqueArc<P>", "Arc<HeaderSlice<(),P>>", "Arc<dyn>", "*const dyn", "ArcUnion(first)",
     "ArcSwap<Arc<P>>", "Arc<Q>", "ArcUnion(second)", "Arc<MaybeUninit<P>>", "UniqueArc<MaybeUninit<P>>", "Arc<HeaderSlice<H,[E]>>",
     "UniqueArc<HeaderSlice<H,[E]>>", "UniqueArc<HeaderSlice<H,[MaybeUninit<E>]>>", "Arc<[E]>", "Arc<HeaderSlice<(),[E]>>",
     "*const [E]", "UniqueArc<[E]>", "UniqueArc<[MaybeUninit<E>]>", "Arc<[MaybeUninit<E>]>", "Arc<HeaderSlice<HeaderWithLength<H>,[E]>>",
     "Arc<HeaderSliceWithLengthProtected<H,E>>", "ThinArc<H,E>", "*const c_void(thin)", "UniqueArc<HeaderSlice<HeaderWithLength<H>,[MaybeUninit<E>]>>",
-    "UniqueArc<HeaderSlice<HeaderWithLength<H>,[E]>>", "ArcSwap<ThinArc>", "Arc<str>", "Arc<HeaderSlice<H,str>>", "P(value)",
+    "UniqueArc<HeaderSlice<HeaderWithLength<H>,[E]>>", "ArcSwap<ThinArc>", "Arc<str>", "Arc<HeaderSlice<H,str>>", "P(value)", "UniqueArc<dyn>",
 ];
 
 impl<F: Family> Handle<F> {
@@ -130,6 +133,7 @@ impl<F: Family> Handle<F> {
             Handle::OffP(_) => Kind::OffP,
             Handle::RawP(_) => Kind::RawP,
             Handle::UniP(_) => Kind::UniP,
+            Handle::UniDynP(_) => Kind::UniDynP,
             Handle::ErasedP(_) => Kind::ErasedP,
             Handle::DynP(_) => Kind::DynP,
             Handle::RawDyn(_) => Kind::RawDyn,
@@ -342,6 +346,12 @@ impl<F: Family> Handle<F> {
             }
             Handle::DynP(x) => {
                 arc_common(&mut v, x, counts);
+                if deep {
+                    v.val = Some(x.probe_id());
+                }
+            }
+            Handle::UniDynP(x) => {
+                v.data = a(&**x as *const dyn Probe);
                 if deep {
                     v.val = Some(x.probe_id());
                 }
